@@ -62,6 +62,10 @@ def main():
                 val[v] = 0.0
             p, b = LM.build_model(model, val)
             cols = [v.name for v in p.variables]
+            if not p._is_linear_problem():
+                # classified non-linear (allowed: linearity may be under-claimed, C04): auto takes the NLP route and
+                # the explicit LP methods refuse; nothing reaches HiGHS
+                continue
             for method in ("auto", "highs-ds"):
                 with warnings.catch_warnings():
                     warnings.simplefilter("ignore")
